@@ -1179,6 +1179,11 @@ func (w *Wallet) MintSwap(amount uint64, from, to string) (uint64, error) {
 
 	amountSwapped, err := w.swapProofs(proofsToSwap, &fromMint, &toMint)
 	if err != nil {
+		// the proofs were already taken out of the wallet: keep them as pending, so that they can be
+		// reclaimed if still unspent (or removed once spent), instead of dropping them
+		if perr := w.db.AddPendingProofs(proofsToSwap); perr != nil {
+			return 0, fmt.Errorf("%v (could not keep proofs as pending: %v)", err, perr)
+		}
 		return 0, err
 	}
 
